@@ -818,6 +818,39 @@ pub fn owning(rng: &mut Rng) -> Program {
     w.s_ctx_stop = 8;
     w.s_ctx_restart = 3;
     w.s_interval = 3;
+    // one case in five: a lazily awaited `consume()` - the future is created, other handles keep using the actor,
+    // and only then (or never) the future is polled
+    if g.rng.chance(1, 5) && !g.prog.actors[0].entry.stream() {
+        let own = g.prog.actors.len() as u16; // owning slot of actor 0
+        g.prog.clients[0].push(Op::ToAddr { slot: own });
+        g.sk[0].push(SK { hk: Hk::Addr, a: 0 });
+        let addr2 = (g.sk[0].len() - 1) as u16;
+        g.prog.clients[0].push(Op::ConsumePark { slot: own });
+        g.sk[0][own as usize] = NONE;
+        g.sk[0].push(SK { hk: Hk::OwnFut, a: 0 });
+        let fut = (g.sk[0].len() - 1) as u16;
+        let k = g.rng.range(1, 3);
+        for _ in 0..k {
+            let script = g.script(&w, false, false);
+            g.prog.clients[0].push(if g.rng.chance(1, 2) { Op::Call { slot: addr2, script, cancel: None } } else { Op::Send { slot: addr2, script, cancel: None } });
+            if g.rng.chance(1, 3) {
+                g.prog.clients[0].push(Op::Yield);
+            }
+        }
+        g.prog.clients[0].push(Op::Call { slot: addr2, script: vec![], cancel: None });
+        match g.rng.below(3) {
+            0 => {
+                // dropped un-polled: the actor lives on as long as the other handle does
+                g.prog.clients[0].push(Op::Drop { slot: fut });
+                g.sk[0][fut as usize] = NONE;
+                g.prog.clients[0].push(Op::Call { slot: addr2, script: vec![], cancel: None });
+            }
+            _ => {
+                g.prog.clients[0].push(Op::AwaitParked { slot: fut });
+                g.sk[0][fut as usize] = NONE;
+            }
+        }
+    }
     g.gen_clients(&w, &Shape { clients: (1, 3), ops: (2, 8), final_wait_pct: 70 });
     g.prog
 }
